@@ -12,7 +12,7 @@
    ... names a child; flush_pre st = the state after the queued restacks were applied). *)
 From Coq Require Import ZArith List Bool.
 From Tickit Require Import RectDefs WinRectSet WinDefs WinSpec WinHist WinFocusProofs WinPreserve WinFocusHistA WinFocusHistB WinFocusHistory.
-From Tickit Require WinLogDisjoint WinShowSpec.
+From Tickit Require WinLogDisjoint WinShowSpec WinHideSpec.
 Import ListNotations.
 Local Open Scope Z_scope.
 
@@ -161,6 +161,24 @@ Example C15_show_refutes_one_level :
   w_fchild (t_info (r_tree (win_show no_defects (WinShowSpec.st_of WinShowSpec.one_level_before) 1))) = Some 1.
 Proof. exact WinShowSpec.show_refutes_one_level. Qed.
 Print Assumptions C15_show_refutes_one_level.
+
+(* tickit_window_hide and the focus links (oracle clause c15_hide_checkb on the trees reported before
+   and after every hide): the parent's link is dropped exactly when it names the hidden window,
+   whatever that window holds; nothing else changes.  The model's hide meets it (every defect
+   configuration), and the checker rejects a hidden window that stays linked *)
+Theorem C15_hide_links : forall cfg st id,
+  WinLogDisjoint.ids_unique (r_tree st) ->
+  c15_hide_checkb id (r_tree st) (r_tree (win_hide cfg st id)) = true.
+Proof. exact WinHideSpec.hide_meets_spec. Qed.
+Print Assumptions C15_hide_links.
+
+Example C15_hide_refutes_stays_linked :
+  WinLogDisjoint.ids_unique WinHideSpec.stays_before /\
+  c15_hide_checkb 1 WinHideSpec.stays_before WinHideSpec.stays_seeded = false /\
+  c15_hide_checkb 1 WinHideSpec.stays_before (r_tree (win_hide no_defects (WinShowSpec.st_of WinHideSpec.stays_before) 1)) = true /\
+  w_fchild (t_info (r_tree (win_hide no_defects (WinShowSpec.st_of WinHideSpec.stays_before) 1))) = None.
+Proof. exact WinHideSpec.hide_refutes_stays_linked. Qed.
+Print Assumptions C15_hide_refutes_stays_linked.
 
 Example C15_nonvacuous :
   ids_unique tree_nv /\ wf_focus tree_nv /\ w_vis (t_info tree_nv) = true /\
